@@ -25,10 +25,19 @@ func TestC09(t *testing.T) {
 	// one case list for the three workloads (long histories first: they dominate the
 	// wall time and overlap with the rest); index ranges are disjoint so that --replay
 	// finds the case
-	const shortBase, stressBase = 1_000, 100_000
+	const shortBase, stressBase, prunedBase = 1_000, 100_000, 500
+	nPruned := r.N(4, 24)
+	if r.Race {
+		nPruned = 0
+		if !r.Quick() {
+			nPruned = 2
+		}
+	}
 	t0 := time.Now() // logged only, never used by an oracle
 	r.Cases(stressBase+nStress, 0, func(idx int) {
 		switch {
+		case idx >= prunedBase && idx < prunedBase+nPruned:
+			prunedLongCase(r, idx)
 		case idx < nLong:
 			longCase(r, idx)
 		case idx >= shortBase && idx < shortBase+nShort:
@@ -37,7 +46,7 @@ func TestC09(t *testing.T) {
 			stressCase(r, idx)
 		}
 	})
-	t.Logf("%d long, %d short, %d stress cases in %.1fs", nLong, nShort, nStress, time.Since(t0).Seconds())
+	t.Logf("%d long, %d pruned long, %d short, %d stress cases in %.1fs", nLong, nPruned, nShort, nStress, time.Since(t0).Seconds())
 
 	r.Assume("block hashes / transaction hashes used as tags are the ones Blockchain.Finalise and the chain generator computed (C02's business); the oracle recomputes nothing cryptographic")
 	r.Assume("Header.EventsBloom is derived from the receipts by the harness exactly as Juno's adapters do (core.EventsBloom); Store does not verify it")
